@@ -205,6 +205,15 @@ def run(R):
                        g.term((wrong or [starts[0]])[0]).get("l"))
                 R.inst(rule, "K4 gate", "arm %s of %s" % (v, short), len(stores), False)
                 continue
+            # (b') "rejected and nothing changes": in an arm that processes a payment (counters, reward event) the presented key is
+            # compared before the payment is looked at
+            pays = [b for b in CallSink(PV + "payment_for_us_exists_and_is_still_valid").blocks(body) if b in region]
+            if pays:
+                grp_p = [CallGuard([VKE], ("Ok",), "validate_key_and_existence(.., record.key) is Ok",
+                                   arg_pred=lambda b_, blk, t, P=P: len(t["args"]) > 2 and op_local(t["args"][2]) in P),
+                         CmpGuard(lambda b_, P=P: record_key_reads(b_), call_results([TRK]), "Eq", "record.key == content-derived key")]
+                R.gate(rule + ".pay", body, BlockSink(lambda b_, _s=pays: _s, "payment processing of arm %s" % v), [grp_p],
+                       descr="arm %s of %s: the presented record.key is compared before the payment is processed" % (v, short), starts=starts)
             # (c) presented key handed to a key-checking validator
             idx = KEY_CHECKING_VALIDATORS.get(STORE[want])
             handed = idx is not None and all(op_local(g.term(b)["args"][idx]) in P for b in stores)
